@@ -65,6 +65,9 @@ type c09Relay struct {
 	// byParent: the bid depends on the parent hash asked for (value + first byte of the hash; defect per parent)
 	byParent     bool
 	parentDefect map[byte]string
+	// perSlot: the bid carries the timestamp of the slot asked for (long runs over many slots; C20)
+	perSlot   bool
+	askedSlot phase0.Slot
 }
 
 type c09Env struct {
@@ -128,8 +131,11 @@ func (r *c09Relay) bid(value int64) *builderspec.VersionedSignedBuilderBid {
 }
 
 func (r *c09Relay) bidAs(defect string, value int64) *builderspec.VersionedSignedBuilderBid {
-	r = &c09Relay{idx: r.idx, defect: defect, bldr: r.bldr, hdr: r.hdr}
+	r = &c09Relay{idx: r.idx, defect: defect, bldr: r.bldr, hdr: r.hdr, perSlot: r.perSlot, askedSlot: r.askedSlot}
 	key := fmt.Sprintf("%d/%s/%d/%c/%d", r.idx, r.defect, value, r.bldr, r.hdr)
+	if r.perSlot {
+		key += fmt.Sprintf("/slot%d", r.askedSlot)
+	}
 	if b, ok := c09Cache[key]; ok {
 		return b
 	}
@@ -138,6 +144,9 @@ func (r *c09Relay) bidAs(defect string, value int64) *builderspec.VersionedSigne
 		fee = bellatrix.ExecutionAddress{}
 	}
 	ts := uint64(c09SlotStart().Unix())
+	if r.perSlot {
+		ts = uint64(mc.Base.Add(time.Duration(r.askedSlot) * 12 * time.Second).Unix())
+	}
 	if r.defect == "timestamp" {
 		ts++
 	}
@@ -216,6 +225,7 @@ func (r *c09Relay) eligible() bool {
 func (r *c09Relay) BuilderBid(ctx context.Context, opts *builderapi.BuilderBidOpts) (*builderapi.Response[*builderspec.VersionedSignedBuilderBid], error) {
 	call := r.calls
 	r.calls++
+	r.askedSlot = opts.Slot
 	if r.byParent {
 		tag := opts.ParentHash[0]
 		defect := r.parentDefect[tag]
